@@ -10,6 +10,10 @@ CONSTANTS
   NotifyPop = TRUE
   ReleaseOnEnd = FALSE
   Faults = TRUE
+  StopAfterSend = TRUE
+  CleanupOnDisc = TRUE
+  MaxSendFail = 1
+  Family = "none"
   MaxOps = 2
   MaxCancel = 0
   Depth = 0
